@@ -2,7 +2,7 @@
 import itertools
 from usim import ResourcesUnavailable
 from ..run import run_one
-from ..oracles import kernel_health
+from ..oracles import kernel_health, containment
 from .. import faults as F
 
 PROPERTY = 'C12'
@@ -254,6 +254,7 @@ def check_exec(program, faults=()):
     m2, waited, refused = claims_ok(ctx, snaps, program)
     msgs += m2
     msgs += kernel_health(ctx, ignore=lambda act, pc, x: isinstance(x, AssertionError) and 'decrease below zero' in str(x))
+    msgs += containment(ctx, program)
     if ctx.outcome is not None:
         msgs.append('run() raised %r' % (ctx.outcome,))
     fin = [r for r in ctx.log if r[0] == 'finish' and r[1] == 'root']
